@@ -52,8 +52,12 @@ DOCS = [
     ('kext', 'tolerant', '\\rp c \\rp(e) f', ['r()'], False),
     ('kext', 'strict', '\\os[g] h \\os i', ['o'], False),
     ('kext', 'tolerant', '\\rs i \\rs[j]', ['r[]'], False),
+    # default context obtained anew for every walker (LatexWalker(s) without latex_context): one construct of every category
+    ('default_percall', 'strict', '\\begin{lemma}[Zorn] x \\end{lemma} \\begin{proof} y \\end{proof}', ['o'], False),
+    ('default_percall', 'strict', '\\section{a} \\textbf{b} \\begin{enumerate}\\item c\\end{enumerate} \\begin{equation}d\\end{equation} '
+     '\\cite[e]{f} \\verb|g| \\begin{tabular}{cc}h\\end{tabular} \\newcommand{\\x}{y} \\includegraphics[w]{z} ~', ['m', 'o'], False),
 ]
-POOLS = [list(range(1, 10)), list(range(10, 14)) + list(range(21, 25)), list(range(14, 21))]
+POOLS = [list(range(1, 10)), list(range(10, 14)) + list(range(21, 25)), list(range(14, 21)) + [25, 26]]
 COLLIDE = [('r()', 'd()'), ('d()', 'r()'), ('r[]', 'o'), ('o', 'r[]')]
 LOCAL_DEFS = {17: ['entry', '!!'], 19: ['entry', '!!']}
 FREE_NAMES = {18: ['entry', '!!'], 20: ['entry', '!!']}
@@ -105,6 +109,9 @@ def cfg(maxlen, variant='intended', emit=True, docs=None):
 def parse_doc(idx):
     """Parse document idx (1-based) in this process; returns a JSON-able observation."""
     cname, mode, src = DOCS[idx - 1][:3]
+    if cname == 'default_percall':      # a new database object per call: nothing the caller holds could be modified
+        r = pc.impl_parse(src, cname, mode)
+        return dict(result={k: v for k, v in r.items() if k in ('ok', 'v', 'exc', 'what', 'pos')}, db_unchanged=True)
     db = pstate.get_db(cname)
     before = proj_db(db)
     r = pc.impl_parse(src, cname, mode)
